@@ -777,7 +777,11 @@ func runReplicas(r *Run, prop string) {
 			case k < 33: // graceful follower restart
 				if f := followers(); len(f) == 2 {
 					n := f[gi.Intn(2)]
-					c.w.Node(n).Stop()
+					old := c.w.Node(n)
+					old.Stop()
+					if old.CloseStuck {
+						return
+					}
 					delete(c.attached, n)
 					wl.prog = append(wl.prog, "restart "+n)
 					if !c.start(n) || !c.attach(n) {
